@@ -405,8 +405,70 @@ def _aio_next(pkg):
     return run
 
 
+def _credit_wakeup(pkg):
+    """BOUNDED, and independent of how the publisher keeps its credit (queue, counter + event, ...): the observable-backed
+    publisher is built and driven through its public operations only; the sender coroutine is run with every loop unrolled.
+    Safety form of "delivers every element once enough credit has been granted": the coroutine is never parked waiting
+    for credit while credit it has not used yet is outstanding (a lost wake-up)."""
+    P = PKGS[pkg]
+    BP = P['dir'] + 'back_pressure_publisher.py::'
+
+    def run(E):
+        E.import_module('asyncio')
+        rx = E.import_module('reactivex' if pkg == 'reactivex' else 'rx')
+        backpressure = E.call(rx.getattr(E, 'Subject'), [])
+        observer = SOpaque('observer', 'observer')
+        it = SOpaque('iterator', 'event-iterator')
+        st = {'credit': 0, 'taken': 0, 'grants': 0, 'checked': False}
+
+        def grant(n):
+            st['credit'] += n
+            st['grants'] += 1
+            E.call(E.getattr(backpressure, 'on_next'), [n])
+
+        def anext(E_, o, m, a, k):
+            st['taken'] += 1
+            return aio.Awaitable('anext', result=None)
+        log = OpaqueLog(E, returns={'__anext__': anext})
+        tasks = []
+        E.create_task_hook = lambda E_, t, coro: tasks.append((t, coro))
+        ob = E.call(E.lookup(BP + 'from_async_event_iterator'), [it, backpressure])
+        E.call(E.getattr(ob, 'subscribe'), [observer])
+        grant(1 + E.path.choice(2, 'first-grant'))
+
+        def on_suspend(E_, what):
+            kind, obj = what
+            if kind == 'anext':
+                # the source is slow: while the sender waits for the next element the requester may top up its credit
+                if st['grants'] < 2 and E_.path.choice(2, 'credit-granted-mid-batch') == 1:
+                    grant(1 + E_.path.choice(2, 'second-grant'))
+                return SObj(M._builtin_class('rx.OnNext'), {'value': SOpaque('payload', 'v%d' % st['taken']), 'kind': 'N'})
+            blocked = (kind == 'queue.get') or (kind == 'event.wait' and obj.attrs.get('flag') is not True)
+            if blocked:
+                E_.cover('parked-waiting-for-credit')
+                E_.prove('credit:never_parked_while_granted_credit_is_unused[lost wake-up]', st['credit'] - st['taken'] == 0)
+                st['checked'] = True
+                E_.throw('CancelledError')
+            return None
+        E.suspend_hook = on_suspend
+        E.unroll_limit = 12
+        try:
+            E.await_value(tasks[0][1])
+        except PyExc as e:
+            pass
+        delivered = [c for c in log.calls if c[0] is observer and c[1] == 'on_next']
+        E.prove('credit:every_element_taken_is_delivered_once_and_never_more_than_granted',
+                len(delivered) == st['taken'] and st['taken'] <= st['credit'])
+        E.prove('credit:scenario_reached_the_waiting_state', st['checked'])
+    return run
+
+
 for _pkg in PKGS:
     _d = PKGS[_pkg]['dir']
+    harness('c20.%s.credit_wakeup.bounded' % _pkg, ['C20', 'C06'], kind='bounded',
+            functions=[_d + 'back_pressure_publisher.py::from_async_event_iterator'],
+            assumptions=RXA + ['BOUNDED stand-in: one or two grants of 1..2 units, the second possibly arriving while the sender awaits the '
+                               'next element; loops unrolled; asyncio.Queue.get / Event.wait suspend iff empty / not set'])(_credit_wakeup(_pkg))
     harness('c20.%s.delegation' % _pkg, ['C20', 'C12'], functions=[_d + PKGS[_pkg]['adapter'] + '.' + m for m in
             ('on_setup', 'on_metadata_push', 'request_fire_and_forget', 'on_error', 'on_keepalive_timeout', 'on_connection_error', 'on_close', '__init__')],
             replay='c20_delegation', assumptions=RXA)(_delegation(_pkg))
